@@ -707,7 +707,7 @@ impl OForest {
 }
 
 impl OForest {
-    fn any_adjacent_text(&self) -> bool {
+    pub fn any_adjacent_text(&self) -> bool {
         self.nodes.values().any(|n| n.kids.windows(2).any(|w| self.is_text(w[0]) && self.is_text(w[1])))
     }
     /// merge every pair of adjacent text children of `p` (only called when no such pair existed before the call)
